@@ -76,6 +76,14 @@ def get_item(ex, p, base, idx, node=None):
         return
     if isinstance(base, VRef):
         h = p.heap[base.ref]
+        if isinstance(h, HObj):
+            from . import lib
+            m = lib.find_method(ex, h.cls, '__getitem__')
+            if m is None:
+                yield p, Raised('TypeError', node=node)
+                return
+            yield from lib.call_repo(ex, p, f'{m[0]}.{m[1]}', [base, idx], {}, node)
+            return
         if isinstance(h, HList):
             for q, i in norm_index(ex, p, idx, len(h.items), node):
                 yield q, (i if isinstance(i, Raised) else q.heap[base.ref].items[i])
@@ -157,6 +165,15 @@ def set_item(ex, p, base, idx, v, node=None):
         return
     if isinstance(base, VRef):
         h = p.heap[base.ref]
+        if isinstance(h, HObj):
+            from . import lib
+            m = lib.find_method(ex, h.cls, '__setitem__')
+            if m is None:
+                yield p, Raised('TypeError', node=node)
+                return
+            for q, r in lib.call_repo(ex, p, f'{m[0]}.{m[1]}', [base, idx, v], {}, node):
+                yield q, (r if isinstance(r, Raised) else NORMAL)
+            return
         if isinstance(h, HList):
             for q, i in norm_index(ex, p, idx, len(h.items), node):
                 if isinstance(i, Raised):
